@@ -75,6 +75,9 @@ class PathResult:
             if o.kind in ("list", "tuple", "dict"):
                 if o.items is not None and o.kind != "dict":
                     return (o.kind, o.origin, tuple(self.describe(x, depth + 1) for x in o.items))
+                if o.kind == "dict":
+                    st = tuple((vkey(k), self.describe(x, depth + 1)) for (k, x, _w) in o.meta.get("stores", []) if isinstance(k, (Const, Sym)))
+                    return (o.kind, o.origin, self.describe(o.elem, depth + 1) if o.elem is not None else None, st)
                 return (o.kind, o.origin, self.describe(o.elem, depth + 1) if o.elem is not None else None)
             if o.kind == "record":
                 return ("record", o.cls.fq if o.cls else "?", o.origin,
@@ -88,8 +91,9 @@ class PathResult:
 
 
 class Interp:
-    def __init__(self, prog: pyfacts.Program, decisions_prefix=None, inline_all=False):
+    def __init__(self, prog: pyfacts.Program, decisions_prefix=None, inline_all=False, cache_model=None):
         self.prog = prog
+        self.cache_model = cache_model if cache_model is not None else {}   # shared dict -> description of what misses store
         self.heap: dict[int, HObj] = {}
         self.next_oid = 1
         self.events = []      # ('gate', N, C, node, func) | ('access', kind, N, C, node, func) | ...
@@ -135,6 +139,48 @@ class Interp:
 
     def obj(self, v):
         return self.heap[v.oid] if isinstance(v, Ref) else None
+
+    def materialize(self, d, what):
+        """rebuild, in this heap and with origin shared, a value described by PathResult.describe()"""
+        org = ("shared", what)
+        if d is None:
+            return Const(None)
+        if isinstance(d, tuple) and d:
+            h = d[0]
+            if h == "circuit":
+                return self.new_circuit(d[2], origin=org, site="cache content")
+            if h in ("list", "tuple", "dict"):
+                o = self.alloc(h, org, site="cache content")
+                x = d[2]
+                if isinstance(x, tuple) and x and isinstance(x[0], tuple) and h != "dict" and not _is_desc(x):
+                    o.items = [self.materialize(y, what) for y in x]
+                    for it in o.items:
+                        o.elem = join(o.elem, it)
+                elif x is not None:
+                    o.elem = self.materialize(x, what)
+                if h == "dict" and len(d) > 3:
+                    for (kk, xd) in d[3]:
+                        o.meta.setdefault("stores", []).append((_sym_from_key(kk), self.materialize(xd, what), "cache content"))
+                return Ref(o.oid)
+            if h == "record":
+                cls = None
+                try:
+                    cls = self.prog.cls(d[1])
+                except AnalysisError:
+                    pass
+                o = self.alloc("record", org, site="cache content", cls=cls)
+                for k, x in d[3]:
+                    o.fields[k] = self.materialize(x, what)
+                return Ref(o.oid)
+            if h == "alt":
+                return Alt([self.materialize(y, what) for y in d[1:]])
+            if h == "const":
+                return Const(d[2])
+            if h == "passmanager":
+                return Ref(self.alloc("passmanager", org).oid)
+            # a symbolic key: rebuild the Sym (provenance recovered from embedded file texts)
+            return _sym_from_key(d)
+        return Const(d) if isinstance(d, (int, str, float, bool)) else Sym("opaque", Const(repr(d)))
 
     def mark_shared(self, v, what, seen=None):
         seen = seen if seen is not None else set()
@@ -431,7 +477,7 @@ class Interp:
                         ob.fields[t.attr] = join(ob.fields.get(t.attr), v)
         elif isinstance(t, ast.Subscript):
             base = self.eval(t.value, fr)
-            idx = self.eval(t.slice, fr)
+            idx = self.keyval(self.eval(t.slice, fr))
             for b in (base.vals if isinstance(base, Alt) else [base]):
                 o = self.obj(b)
                 if o is not None:
@@ -776,6 +822,13 @@ class Interp:
             return Sym("attr", Sym("callable"), attr)
         raise Unsupported(f"attribute {attr} of {base!r} at {pyfacts.where(fr.func, e)}")
 
+    def keyval(self, idx):
+        """dictionary keys: a tuple of values is compared structurally"""
+        o = self.obj(idx)
+        if o is not None and o.kind == "tuple" and o.items is not None:
+            return Sym("tuple", *[self.keyval(x) for x in o.items])
+        return idx
+
     def sym_of(self, v):
         """a Sym standing for a heap object in symbolic expressions"""
         if isinstance(v, Ref):
@@ -967,6 +1020,16 @@ class Interp:
                     return Const(a.v not in b.v)
             except Exception:
                 pass
+        if isinstance(op, (ast.In, ast.NotIn)):
+            ob = self.obj(b)
+            if ob is not None and ob.kind == "dict" and ob.shared() and self.can_fork():
+                # membership in a cache: fork into miss (explored first) and hit
+                a = self.keyval(a)
+                if any(vkey(k) == vkey(a) for (k, _v, _w) in ob.meta.get("stores", [])):
+                    present = True
+                else:
+                    present = not self.decide(("cache-miss", ob.origin[1]))
+                return Const(present if isinstance(op, ast.In) else not present)
         if isinstance(op, (ast.In, ast.NotIn)) and isinstance(a, Const):
             ob = self.obj(b)
             if ob is not None and ob.items is not None and all(isinstance(x, Const) for x in ob.items):
@@ -998,6 +1061,9 @@ class Interp:
     def ex_Subscript(self, e, fr):
         base = self.eval(e.value, fr)
         idx = self.eval(e.slice, fr) if not isinstance(e.slice, ast.Slice) else self.ex_Slice(e.slice, fr)
+        bo = self.obj(base)
+        if bo is not None and bo.kind == "dict":
+            idx = self.keyval(idx)
         return self.getitem(base, idx, e, fr)
 
     def ex_Slice(self, e, fr):
@@ -1031,6 +1097,10 @@ class Interp:
                 if o.elem is not None:
                     return o.elem
                 if o.shared():
+                    if o.origin[1] in self.cache_model:
+                        v = self.materialize(self.cache_model[o.origin[1]], o.origin[1])
+                        o.meta.setdefault("stores", []).append((idx, v, "earlier call (modelled from the miss path)"))
+                        return v
                     raise Unsupported(f"load from shared dictionary {o.origin[1]} whose contents are not modelled at {pyfacts.where(fr.func, e)}")
                 return Sym("item", self.sym_of(base), idx)
             if o.kind == "circuit":
@@ -1170,6 +1240,27 @@ def _as_load(t):
     return t2
 
 
+def _is_desc(x):
+    return isinstance(x, tuple) and x and isinstance(x[0], str)
+
+
+def _sym_from_key(k):
+    if not isinstance(k, tuple) or not k:
+        return Const(k) if isinstance(k, (int, str, float, bool, type(None))) else Sym("opaque", Const(repr(k)))
+    if k[0] == "const":
+        return Const(k[2])
+    if not isinstance(k[0], str):
+        return Sym("tuple", *[_sym_from_key(x) for x in k])
+    args = [_sym_from_key(x) for x in k[1:]]
+    prov = frozenset()
+    for a in args:
+        if isinstance(a, Sym):
+            prov |= a.prov
+    if k[0] == "filetext":
+        prov = frozenset([("file", k[1])])
+    return Sym(k[0], *args, prov=prov)
+
+
 def vkey_s(v):
     return v if isinstance(v, (Sym, Const)) else Sym("v", Const(repr(vkey(v))))
 
@@ -1181,16 +1272,20 @@ def run_entry(prog, func, make_args, inline_all=False):
     results = []
     prefixes = [[]]
     n = 0
+    cache_model = {}
     while prefixes:
         prefix = prefixes.pop()
         n += 1
         if n > MAX_PATHS:
             raise Unsupported(f"more than {MAX_PATHS} paths through {func.fq}")
-        it = Interp(prog, prefix, inline_all=inline_all)
+        it = Interp(prog, prefix, inline_all=inline_all, cache_model=cache_model)
         args, kwargs = make_args(it, func)
         try:
             v = it.call_function(func, args, dict(kwargs))
             results.append(PathResult("return", v, it))
+            for ev in it.events:
+                if ev[0] == "store-shared" and ev[1] not in cache_model:
+                    cache_model[ev[1]] = results[-1].describe(ev[3], 1)
         except _Raise as r:
             results.append(PathResult("raise", None, it, what=r.what))
         except (_MaybeExit, _Break, _Continue):
